@@ -6,7 +6,12 @@ use serde_json::{json, Value};
 use std::collections::{BTreeMap, BTreeSet, HashMap};
 use std::sync::{Arc, Barrier};
 use std::time::{Duration, SystemTime, UNIX_EPOCH};
-use tensor_blob::{compute_hash, BlobConfig, BlobError, BlobStore, BlobWriter, Chunker, PutOptions};
+use nverif::sched::run_threads;
+use std::sync::Mutex;
+use tensor_blob::{
+    check_chunks_exist, compute_hash, find_orphaned_chunks, verify_chunk, BlobConfig, BlobError, BlobReader, BlobStore, BlobWriter,
+    Chunker, GarbageCollector, GcConfig, MetadataUpdates, PutOptions,
+};
 use tensor_store::{ScalarValue, TensorStore, TensorValue};
 
 const LT: i64 = 1_000_000; // one logical tick, in "seconds" of the `_created` field
@@ -33,6 +38,25 @@ enum Op {
     Repair,
     Corrupt { sel: u32, data: Vec<u8> },
     DropChunk { sel: u32 },
+    // ---- queries and the streaming reader
+    Exists(u32),
+    Stats,
+    /// verify_chunk on the sel-th stored chunk (content order) or, past the end, on a key nobody stored
+    VChunk { sel: u32 },
+    CExist(u32),
+    Orphans,
+    /// a metadata update that must leave the chunk list alone (kind: set_meta, tag, untag, link, unlink, rename, retype)
+    Touch(u32, u8),
+    /// gc_cycle with batch_size `b` (below the chunk count: the cycle sees an arbitrary part of the scan)
+    GcBatch { back: u64, b: usize },
+    /// the background task: start(), wait for a tick of the interval, shutdown()
+    BgGc { back: u64 },
+    ROpen(u32, u32),
+    RNext(u32),
+    RRead(u32, usize),
+    RAll(u32),
+    RVerify(u32),
+    RDrop(u32),
 }
 
 fn pieces_txt(ps: &[Vec<u8>]) -> String {
@@ -61,6 +85,20 @@ fn op_json(op: &Op) -> Value {
         Op::Repair => json!("repair"),
         Op::Corrupt { sel, data } => json!({"corrupt": sel, "data": hex(data)}),
         Op::DropChunk { sel } => json!({"drop_chunk": sel}),
+        Op::Exists(a) => json!({"exists": a}),
+        Op::Stats => json!("stats"),
+        Op::VChunk { sel } => json!({"verify_chunk": sel}),
+        Op::CExist(a) => json!({"check_chunks_exist": a}),
+        Op::Orphans => json!("find_orphaned_chunks"),
+        Op::Touch(a, k) => json!({"touch": a, "kind": k}),
+        Op::GcBatch { back, b } => json!({"gc_back": back, "batch_size": b}),
+        Op::BgGc { back } => json!({"background_gc_back": back}),
+        Op::ROpen(r, a) => json!({"ropen": r, "art": a}),
+        Op::RNext(r) => json!({"rnext": r}),
+        Op::RRead(r, n) => json!({"rread": r, "buf": n}),
+        Op::RAll(r) => json!({"rall": r}),
+        Op::RVerify(r) => json!({"rverify": r}),
+        Op::RDrop(r) => json!({"rdrop": r}),
     }
 }
 
@@ -123,7 +161,8 @@ struct OpenWriter {
 
 /// The real store plus everything the oracles need to remember.
 struct Real {
-    rt: tokio::runtime::Runtime,
+    /// one current-thread runtime for the whole run (it holds no state of the store)
+    rt: &'static tokio::runtime::Runtime,
     ts: TensorStore,
     blob: BlobStore,
     chunk: usize,
@@ -133,6 +172,7 @@ struct Real {
     /// chunk key -> content at first sight
     known: HashMap<String, Vec<u8>>,
     writers: HashMap<u32, OpenWriter>,
+    readers: HashMap<u32, BlobReader>,
     /// alpha index -> bytes the artifact must read back as (None once deleted)
     expect: BTreeMap<usize, Option<Vec<u8>>>,
     damaged: bool,
@@ -152,7 +192,8 @@ fn cfg(chunk: usize, max: Option<usize>) -> BlobConfig {
 
 impl Real {
     fn new(chunk: usize, max: Option<usize>) -> Real {
-        let rt = tokio::runtime::Builder::new_current_thread().enable_all().build().unwrap();
+        static RT: std::sync::OnceLock<tokio::runtime::Runtime> = std::sync::OnceLock::new();
+        let rt = RT.get_or_init(|| tokio::runtime::Builder::new_current_thread().enable_all().build().unwrap());
         let ts = TensorStore::new();
         let blob = rt.block_on(BlobStore::new(ts.clone(), cfg(chunk, max))).unwrap();
         Real {
@@ -164,6 +205,7 @@ impl Real {
             ids: vec![],
             known: HashMap::new(),
             writers: HashMap::new(),
+            readers: HashMap::new(),
             expect: BTreeMap::new(),
             damaged: false,
             slack: false,
@@ -249,6 +291,41 @@ impl Real {
         let full = bytes.len() / self.chunk;
         (0..full).map(|i| format!("{CHUNK_PREFIX}{}", compute_hash(&bytes[i * self.chunk..(i + 1) * self.chunk]))).collect()
     }
+}
+
+/// `min_age` that makes gc_cycle collect exactly the records stamped with a tick <= `thr`
+fn min_age_for(thr: u64) -> Duration {
+    let real_min_created = thr * LT as u64 + (LT as u64) / 2;
+    Duration::from_secs(now_secs().saturating_sub(real_min_created))
+}
+
+/// run `f` with a recording yield hook on this thread: the `TensorStore` calls (site, key) it makes
+fn record_calls<T>(f: impl FnOnce() -> T) -> (T, Vec<(&'static str, String)>) {
+    let log: Arc<Mutex<Vec<(&'static str, String)>>> = Arc::new(Mutex::new(Vec::new()));
+    let l2 = log.clone();
+    tensor_store::verif::set_yield_hook(Some(Box::new(move |s, k| l2.lock().unwrap().push((s, k.to_string())))));
+    let out = f();
+    tensor_store::verif::set_yield_hook(None);
+    let v = log.lock().unwrap().clone();
+    (out, v)
+}
+
+/// streaming read of a whole artifact through `BlobReader::read` with buffers of `buf` bytes
+fn read_by_buffers(rt: &tokio::runtime::Runtime, blob: &BlobStore, id: &str, buf: usize) -> Result<Vec<u8>, String> {
+    let mut rd = rt.block_on(blob.reader(id)).map_err(|e| err_class(&e).to_string())?;
+    let mut out = Vec::new();
+    let mut b = vec![0u8; buf.max(1)];
+    loop {
+        let n = rt.block_on(rd.read(&mut b)).map_err(|e| err_class(&e).to_string())?;
+        if n == 0 {
+            break;
+        }
+        out.extend_from_slice(&b[..n]);
+        if out.len() > (1 << 20) {
+            return Err("runaway".into());
+        }
+    }
+    Ok(out)
 }
 
 struct CaseOut {
@@ -471,7 +548,186 @@ fn run_case(m: &mut Model, rep: &mut Report, stream: &str, chunk: usize, max: Op
                     (format!("drop {}", hex(&r.known[&k])), "ok".into())
                 }
             }
+            Op::Exists(a) => {
+                let id = r.uuid_of(*a);
+                (format!("exists a{a}"), match r.rt.block_on(r.blob.exists(&id)) {
+                    Ok(b) => format!("ok {b}"),
+                    Err(e) => err_class(&e).to_string(),
+                })
+            }
+            Op::Stats => {
+                let x = match r.rt.block_on(r.blob.stats()) {
+                    Ok(s) => {
+                        // count_orphans is the same number by another route
+                        let gcx = GarbageCollector::new(r.ts.clone(), GcConfig::default());
+                        if gcx.count_orphans() != s.orphaned_chunks {
+                            rp!().violation("tensor_blob.stats/orphans_differ", "stats().orphaned_chunks != GarbageCollector::count_orphans()", input());
+                            fail(&mut out, "violation", "tensor_blob.stats/orphans_differ");
+                        }
+                        format!("ok {} {} {} {} {}", s.artifact_count, s.chunk_count, s.total_bytes, s.unique_bytes, s.orphaned_chunks)
+                    }
+                    Err(e) => err_class(&e).to_string(),
+                };
+                ("stats".into(), x)
+            }
+            Op::VChunk { sel } => {
+                // candidates: every stored chunk (content order), every key that was stored once and is gone, a key nobody stored
+                let keys = r.sorted_chunk_keys();
+                let mut gone: Vec<String> = r.known.keys().filter(|k| !keys.contains(k)).cloned().collect();
+                gone.sort_by_key(|k| r.known[k].clone());
+                let mut cands: Vec<(String, Vec<u8>)> = keys.iter().chain(gone.iter()).map(|k| (k.clone(), r.known.get(k).cloned().unwrap_or_default())).collect();
+                cands.push((format!("{CHUNK_PREFIX}{}", compute_hash(&[0xFD, 0xFD, 0xFD])), vec![0xFD, 0xFD, 0xFD]));
+                let (key, content) = cands[*sel as usize % cands.len()].clone();
+                let x = match verify_chunk(&r.ts, &key) {
+                    Ok(b) => format!("ok {b}"),
+                    Err(e) => err_class(&e).to_string(),
+                };
+                (format!("vchunk {}", hex(&content)), x)
+            }
+            Op::CExist(a) => {
+                let id = r.uuid_of(*a);
+                let x = match check_chunks_exist(&r.ts, &id) {
+                    Ok(l) => format!("ok {}", if l.is_empty() { ".".to_string() } else { l.iter().map(|k| r.known.get(k).map(|d| hex(d)).unwrap_or_else(|| "?".into())).collect::<Vec<_>>().join(",") }),
+                    Err(e) => err_class(&e).to_string(),
+                };
+                (format!("cexist a{a}"), x)
+            }
+            Op::Orphans => {
+                let mut l: Vec<String> = find_orphaned_chunks(&r.ts).iter().map(|k| r.known.get(k).map(|d| hex(d)).unwrap_or_else(|| "?".into())).collect();
+                l.sort();
+                ("orphans".into(), format!("ok {}", if l.is_empty() { ".".to_string() } else { l.join(",") }))
+            }
+            Op::Touch(a, kind) => {
+                let id = r.uuid_of(*a);
+                let b = &r.blob;
+                let res = match kind % 7 {
+                    0 => r.rt.block_on(b.set_meta(&id, "k", "v")),
+                    1 => r.rt.block_on(b.tag(&id, "t1")),
+                    2 => r.rt.block_on(b.untag(&id, "t1")),
+                    3 => r.rt.block_on(b.link(&id, "task:1")),
+                    4 => r.rt.block_on(b.unlink(&id, "task:1")),
+                    5 => r.rt.block_on(b.update_metadata(&id, MetadataUpdates::new().with_filename("g").set_meta("x", "y").delete_meta("k"))),
+                    _ => r.rt.block_on(b.update_metadata(&id, MetadataUpdates::new().with_content_type("text/plain"))),
+                };
+                (format!("touch a{a}"), match res {
+                    Ok(()) => "ok".to_string(),
+                    Err(e) => err_class(&e).to_string(),
+                })
+            }
+            Op::GcBatch { back, b } => {
+                collector = Some("gc");
+                let thr = t.saturating_sub(*back);
+                let bs = r.rt.block_on(BlobStore::new(r.ts.clone(), cfg(chunk, max).with_gc_batch_size(*b).with_gc_min_age(min_age_for(thr)))).unwrap();
+                let (s, calls) = record_calls(|| r.rt.block_on(bs.gc()).unwrap());
+                if s.deleted > 0 {
+                    out.changed = true;
+                }
+                // the keys the cycle looked at: its `get` calls, in the (arbitrary) order of the scan
+                let seen: Vec<String> = calls.iter().filter(|(site, k)| *site == "store.get" && k.starts_with(CHUNK_PREFIX)).map(|x| x.1.clone()).collect();
+                let want = present_before.len().min(*b);
+                let uniq: BTreeSet<&String> = seen.iter().collect();
+                if seen.len() != want || uniq.len() != seen.len() || seen.iter().any(|k| !present_before.contains(k)) {
+                    rp!().violation("tensor_blob.gc/batch_not_a_part_of_the_scan", "gc_cycle did not look at min(batch_size, chunk count) distinct existing chunk keys", input());
+                    fail(&mut out, "violation", "tensor_blob.gc/batch_not_a_part_of_the_scan");
+                }
+                if !quiet {
+                    rep.hit(&format!("gc_batch.{}", if *b < present_before.len() { "partial" } else { "whole" }));
+                }
+                let ks: Vec<String> = seen.iter().map(|k| r.known.get(k).map(|d| hex(d)).unwrap_or_else(|| "?".into())).collect();
+                (format!("gcsel {} {}", thr + 1, if ks.is_empty() { ".".to_string() } else { ks.join(",") }), format!("ok {} {}", s.deleted, s.freed_bytes))
+            }
+            Op::BgGc { back } => {
+                collector = Some("gc");
+                let thr = t.saturating_sub(*back);
+                let mut bs = r
+                    .rt
+                    .block_on(BlobStore::new(r.ts.clone(), cfg(chunk, max).with_gc_interval(Duration::from_millis(1)).with_gc_min_age(min_age_for(thr))))
+                    .unwrap();
+                r.rt.block_on(async {
+                    bs.start().await.unwrap();
+                    bs.start().await.unwrap(); // second start is a no-op
+                    tokio::time::sleep(Duration::from_millis(4)).await;
+                    bs.shutdown().await.unwrap();
+                });
+                // the cycles' statistics are dropped by the task: only the effect is compared
+                (format!("gc {} 0", thr + 1), "ok".to_string())
+            }
+            Op::ROpen(rid, a) => {
+                let id = r.uuid_of(*a);
+                let x = match r.rt.block_on(r.blob.reader(&id)) {
+                    Ok(rd) => {
+                        let a = format!("ok {} {}", rd.chunk_count(), rd.total_size());
+                        r.readers.insert(*rid, rd);
+                        a
+                    }
+                    Err(e) => err_class(&e).to_string(),
+                };
+                (format!("ropen {rid} a{a}"), x)
+            }
+            Op::RNext(rid) => {
+                let rt = &r.rt;
+                let x = match r.readers.get_mut(rid) {
+                    None => "bad-op".to_string(),
+                    Some(rd) => {
+                        let a = match rt.block_on(rd.next_chunk()) {
+                            Ok(Some(d)) => format!("ok {}", hex(&d)),
+                            Ok(None) => "ok eof".to_string(),
+                            Err(e) => err_class(&e).to_string(),
+                        };
+                        format!("{a} {}", rd.bytes_read())
+                    }
+                };
+                (format!("rnext {rid}"), x)
+            }
+            Op::RRead(rid, n) => {
+                let rt = &r.rt;
+                let x = match r.readers.get_mut(rid) {
+                    None => "bad-op".to_string(),
+                    Some(rd) => {
+                        let mut b = vec![0u8; *n];
+                        let a = match rt.block_on(rd.read(&mut b)) {
+                            Ok(k) => format!("ok {}", hex(&b[..k])),
+                            Err(e) => err_class(&e).to_string(),
+                        };
+                        format!("{a} {}", rd.bytes_read())
+                    }
+                };
+                (format!("rread {rid} {n}"), x)
+            }
+            Op::RAll(rid) => {
+                let rt = &r.rt;
+                let x = match r.readers.get_mut(rid) {
+                    None => "bad-op".to_string(),
+                    Some(rd) => {
+                        let a = match rt.block_on(rd.read_all()) {
+                            Ok(d) => format!("ok {}", hex(&d)),
+                            Err(e) => err_class(&e).to_string(),
+                        };
+                        format!("{a} {}", rd.bytes_read())
+                    }
+                };
+                (format!("rall {rid}"), x)
+            }
+            Op::RVerify(rid) => {
+                let rt = &r.rt;
+                let x = match r.readers.get_mut(rid) {
+                    None => "bad-op".to_string(),
+                    Some(rd) => {
+                        let a = match rt.block_on(rd.verify()) {
+                            Ok(b) => format!("ok {b}"),
+                            Err(e) => err_class(&e).to_string(),
+                        };
+                        format!("{a} {}", rd.bytes_read())
+                    }
+                };
+                (format!("rverify {rid}"), x)
+            }
+            Op::RDrop(rid) => {
+                r.readers.remove(rid);
+                (format!("rdrop {rid}"), "ok".into())
+            }
         };
+        let bg = matches!(op, Op::BgGc { .. });
         r.restamp(t, rp!(), &input);
         let tag = line.split(' ').next().unwrap_or("?").to_string();
         let res_class = imp.split(' ').take(if imp.starts_with("err") { 2 } else { 1 }).collect::<Vec<_>>().join("_");
@@ -479,13 +735,21 @@ fn run_case(m: &mut Model, rep: &mut Report, stream: &str, chunk: usize, max: Op
             rep.hit(&format!("op.{tag}.{res_class}"));
         }
         // ---- correspondence: answer + full image
-        let mo = m.ask(&line);
+        // one round trip: the model's answer and its image after the op
+        let both = m.ask(&format!("! {line}"));
+        let (mo, mimg) = match both.split_once('\t') {
+            Some((a, b)) => (a.to_string(), b.to_string()),
+            None => (both.clone(), "<no image>".to_string()),
+        };
+        let mut mo = mo;
+        if bg && mo.starts_with("ok ") {
+            mo = "ok".to_string();
+        }
         out.lines.push(line.clone());
         if !rp!().compare(&format!("{stream}.answer"), || json!({"case": input(), "at": i, "line": line}), &imp, &mo) {
             fail(&mut out, "disagree", "answer");
         }
         let img = r.image();
-        let mimg = m.ask("image");
         if !rp!().compare(&format!("{stream}.image"), || json!({"case": input(), "at": i, "line": line}), &img, &mimg) {
             fail(&mut out, "disagree", "image");
         }
@@ -561,6 +825,19 @@ fn run_case(m: &mut Model, rep: &mut Report, stream: &str, chunk: usize, max: Op
                             fail(&mut out, "violation", &class);
                             r.expect.insert(ix, None);
                         }
+                        // O1 through the streaming reader: read(buf) with a buffer size that varies with the step
+                        if (i + ix) % 3 == 0 {
+                            let bufsz = 1 + (i * 7 + ix * 3) % (2 * chunk + 2);
+                            if read_by_buffers(&r.rt, &r.blob, &id, bufsz).ok().as_ref() != Some(&bytes) {
+                                rp!().violation("tensor_blob.reader/read_differs_from_written", "BlobReader::read() with a fixed buffer size, repeated until it returns 0, does not return the written bytes", input());
+                                fail(&mut out, "violation", "tensor_blob.reader/read_differs_from_written");
+                            }
+                            // O5c: every chunk of an undamaged artifact passes the per-chunk check, none is reported missing
+                            if check_chunks_exist(&r.ts, &id).ok().map(|l| l.is_empty()) != Some(true) {
+                                rp!().violation("tensor_blob.check_chunks_exist/false_alarm", "check_chunks_exist() reports a missing chunk of an undamaged artifact", input());
+                                fail(&mut out, "violation", "tensor_blob.check_chunks_exist/false_alarm");
+                            }
+                        }
                         // O5a: undamaged artifacts verify
                         if r.blob.verify(&id).ok() != Some(true) {
                             rp!().violation("tensor_blob.verify/false_alarm", "verify() is not Ok(true) on an undamaged artifact", input());
@@ -596,6 +873,20 @@ fn run_case(m: &mut Model, rep: &mut Report, stream: &str, chunk: usize, max: Op
                 }
             }
         } else {
+            // O5d: verify_chunk is false / ChunkMissing on exactly the altered / missing records
+            for (k, orig) in r.known.iter() {
+                let now = r.ts.get(k).ok().and_then(|rec| t_bytes(&rec, "_data"));
+                let v = verify_chunk(&r.ts, k);
+                let ok = match (&now, &v) {
+                    (None, Err(BlobError::ChunkMissing(_))) => true,
+                    (Some(d), Ok(b)) => *b == (d == orig),
+                    _ => false,
+                };
+                if !ok {
+                    rp!().violation("tensor_blob.verify_chunk/wrong_verdict", "verify_chunk() is not (true iff the record holds the content it was stored with, ChunkMissing iff it is gone)", input());
+                    fail(&mut out, "violation", "tensor_blob.verify_chunk/wrong_verdict");
+                }
+            }
             // O5b: verify reports every artifact that lists a damaged chunk, and only those (single damaged key per artifact
             // is guaranteed detectable; several damaged keys could in principle cancel out — generator damages one key at a time)
             let metas: Vec<String> = r.ts.scan(META_PREFIX);
@@ -735,15 +1026,50 @@ fn split_pieces(r: &mut Rng, c: usize, d: &[u8]) -> Vec<Vec<u8>> {
     ps
 }
 
-fn gen_seq(r: &mut Rng, c: usize, len: usize, writers: bool, damage: bool) -> Vec<Op> {
+fn gen_seq(r: &mut Rng, c: usize, len: usize, writers: bool, damage: bool, api: bool) -> Vec<Op> {
     let p = pool(r, c);
     let mut ops = Vec::new();
     let mut made: u32 = 0; // upper bound on artifacts created so far
     let mut open: Vec<u32> = vec![];
     let mut next_w = 0u32;
     let mut damaged = false;
+    let mut rd_open: Vec<u32> = vec![];
+    let mut next_r = 0u32;
     while ops.len() < len {
         let pick_art = |r: &mut Rng, made: u32| if made == 0 || r.chance(1, 12) { made + r.below(2) as u32 } else { r.below(made as u64) as u32 };
+        if api && r.chance(2, 5) {
+            // queries, the streaming reader, partial-batch and background collection
+            let op = match r.below(20) {
+                0 => Op::Exists(pick_art(r, made)),
+                1 => Op::Stats,
+                2 => Op::VChunk { sel: r.below(12) as u32 },
+                3 => Op::CExist(pick_art(r, made)),
+                4 => Op::Orphans,
+                5 | 6 => Op::Touch(pick_art(r, made), r.below(7) as u8),
+                7 | 8 => Op::GcBatch { back: *r.pick(&[0, 0, 1, 3]), b: 1 + r.below(4) as usize },
+                9 if r.chance(1, 6) => Op::BgGc { back: *r.pick(&[0, 0, 2]) },
+                10 | 11 | 9 if rd_open.len() < 3 => {
+                    let x = next_r;
+                    next_r += 1;
+                    rd_open.push(x);
+                    Op::ROpen(x, pick_art(r, made))
+                }
+                12 | 13 | 14 | 15 if !rd_open.is_empty() => {
+                    let x = *r.pick(&rd_open);
+                    Op::RRead(x, *r.pick(&[0usize, 1, 1, 2, c.saturating_sub(1).max(1), c, c + 1, 3 * c]))
+                }
+                16 if !rd_open.is_empty() => Op::RNext(*r.pick(&rd_open)),
+                17 if !rd_open.is_empty() => Op::RAll(*r.pick(&rd_open)),
+                18 if !rd_open.is_empty() => Op::RVerify(*r.pick(&rd_open)),
+                19 if !rd_open.is_empty() => {
+                    let i = r.below(rd_open.len() as u64) as usize;
+                    Op::RDrop(rd_open.remove(i))
+                }
+                _ => Op::Stats,
+            };
+            ops.push(op);
+            continue;
+        }
         let k = r.below(100);
         let op = match k {
             0..=21 => {
@@ -819,13 +1145,13 @@ fn gen_seq(r: &mut Rng, c: usize, len: usize, writers: bool, damage: bool) -> Ve
     ops
 }
 
-fn run_stream(m: &mut Model, rep: &mut Report, r: &mut Rng, stream: &str, n: u64, writers: bool, damage: bool) {
+fn run_stream(m: &mut Model, rep: &mut Report, r: &mut Rng, stream: &str, n: u64, writers: bool, damage: bool, api: bool) {
     let mut reported: BTreeSet<String> = BTreeSet::new();
     for _ in 0..n {
         let c = *r.pick(&[1usize, 2, 3, 4, 4, 5, 8]);
         let max = if r.chance(1, 6) { Some(c * (1 + r.below(4) as usize)) } else { None };
         let len = 4 + r.below(if damage { 14 } else { 28 }) as usize;
-        let ops = gen_seq(r, c, len, writers, damage);
+        let ops = gen_seq(r, c, len, writers, damage, api);
         let out = run_case(m, rep, stream, c, max, &ops, false);
         let key = out.lines.join(";");
         rep.case(stream, if out.wrote && out.changed { Some(&key) } else { None });
@@ -1064,12 +1390,23 @@ fn main() {
     let root = Rng::new(args.seed);
     let scale: u64 = if args.thorough { 12 } else { 1 };
 
+    let t0 = std::time::Instant::now();
+    let mut lap = |what: &str| eprintln!("[{:7.2}s] {what}", t0.elapsed().as_secs_f64());
     directed(&mut m, &mut rep);
+    lap("directed");
     chunker_stream(&mut m, &mut rep, &mut root.fork("chunker"), 1500 * scale);
-    run_stream(&mut m, &mut rep, &mut root.fork("seq"), "seq", 1200 * scale, false, false);
-    run_stream(&mut m, &mut rep, &mut root.fork("writers"), "writers", 600 * scale, true, false);
-    run_stream(&mut m, &mut rep, &mut root.fork("damage"), "damage", 400 * scale, false, true);
+    lap("chunker");
+    run_stream(&mut m, &mut rep, &mut root.fork("seq"), "seq", 1200 * scale, false, false, false);
+    lap("seq");
+    run_stream(&mut m, &mut rep, &mut root.fork("writers"), "writers", 600 * scale, true, false, false);
+    lap("writers");
+    run_stream(&mut m, &mut rep, &mut root.fork("damage"), "damage", 400 * scale, false, true, false);
+    lap("damage");
+    run_stream(&mut m, &mut rep, &mut root.fork("api"), "api", 350 * scale, false, false, true);
+    run_stream(&mut m, &mut rep, &mut root.fork("api-damage"), "api-damage", 150 * scale, false, true, true);
+    lap("api");
     thread_stream(&mut rep, &mut root.fork("threads"), 300 * scale);
+    lap("threads");
 
     rep.note("SHA-256 is opaque: the model is keyed by the chunk bytes themselves; the harness checks every new chunk record is keyed by compute_hash(data)");
     rep.note("`_created` stamps are rewritten to logical ticks by the harness (no clock hook); the strict `<` of gc_cycle is therefore exercised in ticks, not in wall-clock seconds");
